@@ -69,6 +69,7 @@ MUTATIONS = [
     {"name": "c07_counter_never_reset", "props": ["C07"], "edits": [(INJ, "            counter.store(0, std::sync::atomic::Ordering::SeqCst);", "            let _ = counter;")]},
     {"name": "c07_reset_to_one", "props": ["C07", "C06"], "edits": [(INJ, "            counter.store(0, std::sync::atomic::Ordering::SeqCst);", "            counter.store(1, std::sync::atomic::Ordering::SeqCst);")]},
     {"name": "c06_load_store_instead_of_fetch_add", "props": ["C06"], "edits": [(MACROS, "let prev = FAKE_COUNTER.fetch_add(1, Ordering::SeqCst);", "let prev = FAKE_COUNTER.load(Ordering::SeqCst); std::thread::yield_now(); FAKE_COUNTER.store(prev + 1, Ordering::SeqCst);", 28)]},
+    {"name": "c06_bare_load_store", "props": ["C06"], "edits": [(MACROS, "let prev = FAKE_COUNTER.fetch_add(1, Ordering::SeqCst);", "let prev = FAKE_COUNTER.load(Ordering::SeqCst); FAKE_COUNTER.store(prev + 1, Ordering::SeqCst);", 28)]},
     {"name": "c06_budget_off_by_one", "props": ["C06"], "edits": [(MACROS, "if prev >= $expected {", "if prev > $expected {", 28)]},
     {"name": "c06_verifier_less_than", "props": ["C06"], "edits": [(VERIFIER, "if call_times != *expected {", "if call_times < *expected {")]},
     {"name": "c06_message_without_actual", "props": ["C06"], "edits": [(VERIFIER, "but it is actually called {call_times} time(s)", "but it was called a different number of times")]},
